@@ -165,6 +165,32 @@ pub fn battery(bytes: Vec<u8>) -> (String, Vec<(String, String)>) {
         let _ = p.remove_stream("zs");
         let _ = p.remove_digital_signature();
     });
+    // every summary setter, on whatever the file's property set held (each setter reads the old value)
+    guard("summary set_arch", &mut panics, || p.summary_info_mut().set_arch("arm64"));
+    guard("summary set_languages", &mut panics, || p.summary_info_mut().set_languages(&[msi::Language::from_code(1033), msi::Language::from_code(1031)]));
+    guard("summary clear_arch", &mut panics, || p.summary_info_mut().clear_arch());
+    guard("summary clear_languages", &mut panics, || p.summary_info_mut().clear_languages());
+    guard("summary setters", &mut panics, || {
+        let s = p.summary_info_mut();
+        s.set_arch("x64");
+        s.set_author("a");
+        s.set_comments("c");
+        s.set_creating_application("app");
+        s.set_creation_time(std::time::UNIX_EPOCH);
+        s.set_subject("s");
+        s.set_title("t");
+        s.set_uuid(uuid::Uuid::nil());
+        s.set_word_count(2);
+        s.clear_author();
+        s.clear_comments();
+        s.clear_creating_application();
+        s.clear_creation_time();
+        s.clear_subject();
+        s.clear_title();
+        s.clear_uuid();
+        s.clear_word_count();
+        s.set_codepage(CodePage::Windows1252);
+    });
     guard("summary + code page", &mut panics, || {
         p.summary_info_mut().set_author("a");
         p.set_database_codepage(CodePage::Utf8);
@@ -216,6 +242,18 @@ pub fn corrupted(base: &J, faults: &[J]) -> Result<Vec<u8>, String> {
                 }
             }
         }
+    }
+    // the template property ("arch;languages") as raw text
+    for f in faults.iter().filter(|f| f["site"] == "template") {
+        let raw = match f["kind"].as_str().unwrap_or("") {
+            "nosemi" => "x64,1033",
+            "empty" => "",
+            "onlysemi" => ";",
+            "twosemi" => "x64;1033;0",
+            "badlang" => "x64;abc,-1,99999999999",
+            _ => "Intel;1033,,1031,",
+        };
+        img["summary"]["template_raw"] = json!(raw);
     }
     let (mut clsid, mut streams) = image_streams(&img)?;
     let name_of = |n: &J| -> String {
@@ -271,6 +309,14 @@ pub fn corrupted(base: &J, faults: &[J]) -> Result<Vec<u8>, String> {
                             "rc0" => set16(&mut s.1, o + 2, 0),
                             "rc+" => set16(&mut s.1, o + 2, rc.wrapping_add(1)),
                             "rcmax" => set16(&mut s.1, o + 2, 0xFFFF),
+                            "long2g" | "longmax" => {
+                                // entry k becomes the escape (0, high half), entry k+1 keeps its count and gets the low half
+                                if o + 8 <= s.1.len() {
+                                    set16(&mut s.1, o, 0);
+                                    set16(&mut s.1, o + 2, if kind == "longmax" { 0xFFFF } else { 0x7FFF });
+                                    set16(&mut s.1, o + 4, 0xFFFF);
+                                }
+                            }
                             _ => set16(&mut s.1, o, 0),
                         }
                     }
